@@ -72,6 +72,9 @@ pub enum TableKind {
     Empty,
     /// A1 = 0, A2 = u32::MAX s, B1 = B2 = base
     Extreme,
+    /// A1 = base-1s; A2 = a lifecycle *resumed* from A1 (created by Lifecycle::update on a reception gap) whose start
+    /// estimate lies before A1's: base-5s; B1 = base-2s, B2 = base
+    Resume,
 }
 impl TableKind {
     fn name(&self) -> &'static str {
@@ -80,6 +83,7 @@ impl TableKind {
             TableKind::Overlap => "overlap",
             TableKind::Empty => "empty",
             TableKind::Extreme => "extreme",
+            TableKind::Resume => "resume",
         }
     }
     fn parse(s: &str) -> Option<TableKind> {
@@ -88,6 +92,7 @@ impl TableKind {
             "overlap" => TableKind::Overlap,
             "empty" => TableKind::Empty,
             "extreme" => TableKind::Extreme,
+            "resume" => TableKind::Resume,
             _ => return None,
         })
     }
@@ -108,6 +113,7 @@ impl TableKind {
             ],
             TableKind::Empty => [None; 4],
             TableKind::Extreme => [Some(0), Some(U32MAX_S), Some(base), Some(base)],
+            TableKind::Resume => [Some(base.saturating_sub(S)), Some(base.saturating_sub(5 * S)), Some(base.saturating_sub(2 * S)), Some(base)],
         }
     }
 }
@@ -148,6 +154,19 @@ fn build_table(kind: TableKind, base: u64) -> Table {
         // a real lifecycle object, created from a message of that ECU received at the wanted start time
         let mut m = mk_msg(0, &ecu_of(lc), start.unwrap_or(base), 0, true, Some((MTIN_LOG_INFO_V, 0, *b"APID", *b"CTID")), vec![]);
         let mut l = Lifecycle::new(&mut m);
+        if kind == TableKind::Resume && lc == 1 {
+            // A2 as the detector creates a resumed lifecycle: a message of ECUA 20 s after the last one of A1 with a
+            // continuing timestamp; its start estimate is then moved before A1's (as later, less delayed messages do)
+            let mut m1 = mk_msg(0, &ecu_of(0), base, 10_000, true, Some((MTIN_LOG_INFO_V, 0, *b"APID", *b"CTID")), vec![]);
+            let mut a1 = Lifecycle::new(&mut m1);
+            let mut m2 = mk_msg(1, &ecu_of(0), base + 20 * S, 20_000, true, Some((MTIN_LOG_INFO_V, 0, *b"APID", *b"CTID")), vec![]);
+            match a1.update(&mut m2, 60 * S) {
+                Some(r) if r.is_resume() => l = r,
+                _ => panic!("harness: the detector did not create a resumed lifecycle"),
+            }
+            // the origin's start as recorded in the resume info must not be later than A2's start for the case to be interesting
+            assert!(l.resume_start_time() >= l.start_time, "harness: resume info");
+        }
         if let Some(st) = start {
             l.start_time = st;
             w.insert(l.id(), l.clone());
@@ -668,6 +687,9 @@ impl Prop for C10 {
               "{A1,A2,B1,B2,BU} x steps {0,1s} x late by {0,2s} x {normal,ctrl}", (1, 3), W3, d3),
             f("table_empty", Empty, BASE, alphabet(&[0, 1, 3], &[0, 1000, -1000], &[Ts::Abs(0), Ts::Abs(2000)], &[false, true]),
               "{A1,A2,B1} (all unknown) x steps {0,1s,-1s} x abs ts {0,2s} x {normal,ctrl}", (1, 3), W3, d3),
+            // a table with a resumed lifecycle whose start estimate lies before its origin's
+            f("table_resume", Resume, BASE, alphabet(&[0, 1, 3], &[0, 1000, 5000], &late3, &[false, true]),
+              "{A1,A2(resumed from A1, start before A1),B1} x steps {0,1s,5s} x late by {0,2s,20s} x {normal,ctrl}", (1, 3), W3, d3),
             // extreme but parser-reachable values
             f("extreme_values_base0", Extreme, 0, alphabet(&[0, 1, 3, 2], &[0, 1000, -1000], &absx, &[false, true]),
               "{A1(start 0),A2(start u32::MAX s),B1(start 0),AU} x steps {0,1s,-1s} x abs ts {0,1s,u32::MAX dms} x {normal,ctrl}", (1, 2), W3, dx),
